@@ -181,6 +181,9 @@ fn eval_prefix(prefixes: &BTreeMap<String, Numeric>, expr: &Expr) -> Result<Nume
         }) => {
             let left = eval_prefix(prefixes, &*left)?;
             let right = eval_prefix(prefixes, &*right)?;
+            if right == Numeric::zero() || right == Numeric::Float(0.0) {
+                return Err("Division by zero".to_string());
+            }
             Ok(&left / &right)
         }
         Expr::BinOp(BinOpExpr {
